@@ -131,6 +131,9 @@ func (h *History) Hash() string {
 	}
 	var seg []Event
 	for _, e := range h.Events {
+		if e.Kind == "step" && strings.HasSuffix(e.Info, "!") {
+			continue // an invisible lock waiter went on (not a decision; whether it had to wait at all may depend on a race inside a step)
+		}
 		if e.Kind == "step" || e.Kind == "stall" {
 			flush(seg)
 			seg = seg[:0]
